@@ -248,6 +248,12 @@ def check(src, rep):
         rep.ok("R5", "dispatch / shared grammars", "frame and body alternatives wrap the same two body grammars, each tagging itself with its own type")
     elif not shared:
         rep.violation("R5", "kaifa", "frame-body", "frame and bare-body grammars do not share the body grammars", file, 1)
+    from sa.decoders import octet_string_text_finding
+    otf = octet_string_text_finding(w)
+    if otf:
+        rep.violation("R5", "cosem.Field", "text-alternatives", otf, src.file("cosem"), 1)
+    else:
+        rep.ok("R5", "text fields in the grammar", "an octet string is a date-time struct or text, a visible string is text; no other alternative can claim the octets")
     wt, n_wt = wire_type_findings(w, ["cosem", MOD])
     for kind, mod, where, text, line in wt:
         rep.violation("R5", f"{mod}.{where.split(':')[0]}", f"wire-type:{where}", text, src.file(mod), line)
